@@ -100,6 +100,12 @@ Set(d, k, v) == /\ d \in live
                 /\ UNCHANGED live
                 /\ last' = [op |-> "set", d |-> d, k |-> k, v |-> v, res |-> "ok"]
 
+\* a setter that REFUSES its argument (udict_set_opaque_from_hex / uref_attr_set_opaque_from_hex given a
+\* string that stops being hexadecimal): an error is answered and nothing is stored, replaced or removed
+SetRefused(d, k) == /\ d \in live
+                    /\ UNCHANGED <<dict, live>>
+                    /\ last' = [op |-> "setbad", d |-> d, k |-> k, res |-> "invalid"]
+
 \* set_string(d, get_string(d, k2), k) / set_opaque likewise: the source
 \* pointer aliases the dictionary's own storage.  Absent source: the getter
 \* fails and nothing is stored.
